@@ -393,12 +393,16 @@ func lexString(l *lexer) stateFn {
 			l.pos += len(delimOpenInterpolate)
 			l.emit(tokenInterpolateOpen)
 			l.mode = modeInterpolate
+			// Brackets opened outside the string do not count inside the interpolation.
+			parens, braces := l.parens, l.braces
+			l.parens, l.braces = 0, 0
 			for ins := lexExpression; ins != nil; {
 				ins = ins(l)
 			}
 			if l.mode == modeClosed {
 				return nil
 			}
+			l.parens, l.braces = parens, braces
 			l.mode = modeNormal
 			l.emit(tokenInterpolateClose)
 		}
